@@ -64,6 +64,7 @@ struct ArchiveMetadata {
     block_size: u16,
     #[allow(dead_code)] // Kept for future validation features
     sector_size: usize,
+    #[allow(dead_code)] // Kept for future rebuild strategy features
     has_het_bet: bool,
     #[allow(dead_code)] // Kept for future rebuild strategy features
     has_classic_tables: bool,
@@ -207,20 +208,15 @@ fn analyze_archive(archive: &mut Archive) -> Result<ArchiveMetadata> {
 /// Extract files with their metadata from the source archive
 fn extract_files_with_metadata(
     archive: &mut Archive,
-    metadata: &ArchiveMetadata,
+    _metadata: &ArchiveMetadata,
     options: &RebuildOptions,
     progress_callback: &Option<ProgressCallback>,
 ) -> Result<Vec<(Vec<u8>, FileMetadata)>> {
-    // Get file list, preferring the most complete method
-    let files = if metadata.has_het_bet {
-        archive
-            .list_all_with_hashes()
-            .unwrap_or_else(|_| archive.list().unwrap_or_default())
-    } else {
-        archive
-            .list()
-            .unwrap_or_else(|_| archive.list_all().unwrap_or_default())
-    };
+    // Get the file list. Files can only be carried over under their real names, and
+    // those are only known through the (listfile); table enumeration
+    // (`list_all*`) yields synthetic `file_NNNNNNNN.dat` names that cannot be read
+    // back or re-added, for HET/BET archives as much as for classic ones.
+    let files = archive.list()?;
 
     let mut extracted_files = Vec::new();
     let total_files = files.len();
